@@ -97,6 +97,12 @@ impl Vm {
 
   /// Set the current error place the vm signal a runtime error
   pub(super) fn set_error(&mut self, error: Instance) -> ExecutionSignal {
+    // an error raised while the filters of a catch clause are evaluated
+    // cannot be handled by that clause
+    if self.fiber.is_selecting_handler() {
+      self.fiber.error_while_handling();
+    }
+
     self.fiber.set_error(error);
     ExecutionSignal::RuntimeError
   }
